@@ -143,9 +143,9 @@ fn gen_nested(t: &mut Tape) -> Case {
         let k = g.t.pick(u.len());
         s.extend(u[k].stmts(n, &scr));
     }
-    let pos = g.t.pick(7);
+    let pos = g.t.pick(9);
     // the last element of a multi-element list cannot contain nested lists
-    let e = g.expr(Ctx { no_lists: pos == 3, ..Ctx::new(5) });
+    let e = g.expr(Ctx { no_lists: pos == 3 || pos == 8, ..Ctx::new(5) });
     let r = res();
     match pos {
         0 => s.push(say(e)),
@@ -172,6 +172,28 @@ fn gen_nested(t: &mut Tape) -> Case {
             s.push(Stmt::While { cond: e, body: vec![say(strlit("loop")), Stmt::Break] });
             s.push(say(strlit("after")));
         }
+        7 | 8 => {
+            // compound assignment to an array element (also of a variable that holds no array, or nothing at all), its
+            // operands free to read, roll or call: the element is read first, then the operands left to right
+            let op = *g.t.choose(&[BinOp::Plus, BinOp::Minus, BinOp::Multiply, BinOp::Divide]);
+            let dest = if g.t.chance(1, 8) { simple("neverassigned") } else { names[g.t.pick(names.len())].clone() };
+            let idx = match g.t.pick(4) {
+                0 => Primary::Lit(Lit::Num(0.0)),
+                1 => Primary::Lit(Lit::Num(1.0)),
+                2 => Primary::Lit(Lit::Str("k".into())),
+                _ => Primary::Lit(Lit::Num(2.0)),
+            };
+            let mut value = vec![];
+            if pos == 8 {
+                value.push(g.unary(Ctx { no_trailing_call: true, no_lists: true, ..Ctx::new(3) }));
+            }
+            // the last element of a multi-element list cannot contain nested lists
+            value.push(if pos == 8 { g.expr(Ctx { no_lists: true, ..Ctx::new(3) }) } else { e });
+            let el = Primary::Subscript(Box::new(pvar(&dest)), Box::new(idx.clone()));
+            s.push(Stmt::Assign { dest: Lhs::Subscript(Box::new(pvar(&dest)), Box::new(idx)), value, op: Some(op) });
+            s.extend(probe(Expr::Primary(el)));
+            s.push(say(var(&dest)));
+        }
         _ => {
             // return position
             let f = simple("retfn");
@@ -195,7 +217,7 @@ impl Prop for C03 {
             "(i) exhaustive: 13 binary operators x all ordered pairs of a {n}-value universe, 2 unary operators x {n}, 4 compound assignments x {n}^2, \
              build/knock by 1..4 x {n}, truthiness (if / not / until) x {n}; each result observed through a probe triple that separates the six kinds. \
              (ii) random nested expressions (depth <= 5, list operands, calls to marker-printing functions, pronouns, subscripts, roll) over \
-             variables initialised from the universe, in say / put / if / while / compound-let / rock / return position. \
+             variables initialised from the universe, in say / put / if / while / compound-let / compound-let on an array element / rock / return position. \
              non-trivial: every table cell; nested cases with >= 2 operators or an operator applied to two different kinds; distinct by case",
             n = uni().len()
         )
